@@ -69,7 +69,23 @@ def main():
         results = json.load(open(rp))
     try:
         for n in names:
-            own = json.load(open(os.path.join(VERIF, "seeded", n, "meta.json")))["property"]
+            meta = json.load(open(os.path.join(VERIF, "seeded", n, "meta.json")))
+            own = meta["property"]
+            if meta.get("expect") == "silent" and meta.get("props"):
+                props = [p for p in meta["props"] if p in cl]
+                r = run_one(n, props)
+                r["own"] = own
+                r["expect"] = "silent"
+                r["own_claimed"] = True
+                r["caught_by_own"] = False
+                r["false_alarm"] = bool(r["flagged"])
+                results[n] = r
+                print("%-14s NEUTRAL %-10s flagged=%s%s" % (n, "FALSE-ALARM" if r["flagged"] else "silent-ok", ",".join(r["flagged"]) or "-", ("  ERROR " + r["error"][:200]) if r.get("error") else ""))
+                for pk, ks in r["keys"].items():
+                    for k in ks[:3]:
+                        print("      %s" % k[:220])
+                sys.stdout.flush()
+                continue
             if mode == "own":
                 props = [own] if own in cl else []
             elif mode == "all":
